@@ -20,7 +20,7 @@ if [ "${1:-}" = "--replay" ]; then
 fi
 rm -f /verif/.target/c19-threads-evidence.json
 VERIF_EVIDENCE_PATH=/verif/.target/c19-threads-evidence.json VERIF_REPLAY_TAG=threads "$ST"/release/c19t --tier "$TIER"; rc1=$?
-"$AT"/release/c19 --tier "$TIER"; rc2=$?
+VERIF_MERGE_EVIDENCE="threads_under_loom=/verif/.target/c19-threads-evidence.json" "$AT"/release/c19 --tier "$TIER"; rc2=$?
 rm -rf /dev/shm/verif-c19*-* 2>/dev/null
 if [ $rc1 -eq 2 ] || [ $rc2 -eq 2 ]; then exit 2; fi
 if [ $rc1 -eq 1 ] || [ $rc2 -eq 1 ]; then exit 1; fi
